@@ -7,6 +7,7 @@ from fontTools.cffLib.CFFToCFF2 import convertCFFToCFF2
 from fontTools.ttLib import TTFont
 from fontTools.ttLib.standardGlyphOrder import standardGlyphOrder
 
+from ufo2ft import _verif
 from ufo2ft.constants import (
     GLYPHS_DONT_USE_PRODUCTION_NAMES,
     KEEP_GLYPH_NAMES,
@@ -105,8 +106,10 @@ class PostProcessor:
                 cffVersion=cffVersion,
                 subroutinizer=subroutinizer,
             )
+            _verif.emit("PostCFF", postprocessor=self, otf=self.otf)
 
         self.process_glyph_names(useProductionNames)
+        _verif.emit("Renamed", postprocessor=self, otf=self.otf)
 
         if self.info:
             self.apply_fontinfo()
